@@ -39,7 +39,9 @@ PATCHES = [
 ]
 POINTERS = [b"", b"/a/1", b"/b/e", b"/k/k/k/2/1/1/0", b"/0/tags/1", b"/x/B", b"/a~1b/m~0n/1", b"/nope", b"/w/2", b"/2/id"]
 KEYS = [b"a", b"b", b"k", b"K", b"x", b"new key", b"id", b"z"]
-MINIFY = [b'{ "a" : [1, 2 , 3.5] , /* c */ "b" : "x y" } // end', b'[ 1.25 , "a\\\\" , /* x */ 2 ]', b'"s" ']
+MINIFY = [b'{ "a" : [1, 2 , 3.5] , /* c */ "b" : "x y" } // end', b'[ 1.25 , "a\\\\" , /* x */ 2 ]', b'"s" ',
+          # texts whose last bytes are the middle of something: Minify must stop at the terminator of ITS buffer
+          b'[1] // x\r', b'{"a" : 1}//\r', b'[2] /* open', b'[3] //', b'"unterminated \\', b'[4] /', b'[1, 2]\r', b'[5] /* a *', b'[6] // c\r\n', b'"a\\']
 
 
 def generated_texts():
